@@ -465,6 +465,61 @@ impl BlockchainSyncState {
     }
 }
 
+#[cfg(saito_verif)]
+impl BlockchainSyncState {
+    /// Verification hook: the complete scheduler state, sorted, for state digests.
+    /// per peer: (queued-or-fetching entries as (id, hash, status code, retries), unprocessed announcements)
+    pub fn verif_snapshot(
+        &self,
+    ) -> Vec<(
+        PeerIndex,
+        Vec<(BlockId, SaitoHash, u8, u32)>,
+        Vec<(BlockId, SaitoHash)>,
+    )> {
+        let mut peers: Vec<PeerIndex> = self
+            .blocks_to_fetch
+            .keys()
+            .chain(self.received_block_picture.keys())
+            .cloned()
+            .collect();
+        peers.sort();
+        peers.dedup();
+        peers
+            .into_iter()
+            .map(|p| {
+                let mut a: Vec<(BlockId, SaitoHash, u8, u32)> = self
+                    .blocks_to_fetch
+                    .get(&p)
+                    .map(|d| {
+                        d.iter()
+                            .map(|b| {
+                                let code = match b.status {
+                                    BlockStatus::Queued => 0u8,
+                                    BlockStatus::Fetching => 1,
+                                    BlockStatus::Fetched => 2,
+                                    BlockStatus::Failed => 3,
+                                };
+                                (b.block_id, b.block_hash, code, b.retry_count)
+                            })
+                            .collect()
+                    })
+                    .unwrap_or_default();
+                a.sort();
+                let mut b: Vec<(BlockId, SaitoHash)> = self
+                    .received_block_picture
+                    .get(&p)
+                    .map(|d| d.iter().cloned().collect())
+                    .unwrap_or_default();
+                b.sort();
+                (p, a, b)
+            })
+            .collect()
+    }
+    pub fn verif_batch_size(&self) -> usize {
+        self.batch_size
+    }
+}
+
 #[cfg(test)]
 mod tests {
     use crate::core::consensus::blockchain_sync_state::BlockchainSyncState;
